@@ -120,6 +120,9 @@ class Handler(BaseHTTPRequestHandler):
         if path.endswith('.md5'):
             if beh == 'missing':
                 return self._send(404, b'not found')
+            if sc.get('md5_delay'):
+                import time as _t
+                _t.sleep(sc['md5_delay'])           # a slow checksum server (still answers correctly)
             good = BODIES[sc['good']]
             if beh == 'garbage':
                 return self._send(200, b'<html><body>no such file</body></html>')
@@ -219,6 +222,13 @@ def run_shard(desc, ctx):
             extra.append({'data': dd, 'md5': 'multi', 'prior': pr, 'good': 'good', 'head': 'ok'})
             extra.append({'data': dd, 'md5': 'correct', 'prior': pr, 'good': 'good', 'head': 'ok', 'conditional': True})
             extra.append({'data': dd, 'md5': 'correct', 'prior': pr, 'good': 'good', 'head': 'ok', 'outpath': 'link_dotdot'})
+    # the published file is empty (zero bytes): an empty local file is then the valid one
+    for dd in (['404'], ['corrupt'], ['empty'], ['corrupt', 'empty'], ['corrupt', 'corrupt']):
+        for pr in ('absent', 'valid', 'corrupt'):
+            extra.append({'data': dd, 'md5': 'correct', 'prior': pr, 'good': 'empty', 'head': 'ok'})
+    # a checksum server that answers correctly but slowly (6.5 s; thorough: also 12 s and 35 s)
+    for dl in ([6.5] if desc['tier'] != 'thorough' else [6.5, 12., 35.]):
+        extra.append({'data': ['corrupt', 'good'], 'md5': 'correct', 'prior': 'absent', 'good': 'good', 'head': 'ok', 'md5_delay': dl})
     for i, c in enumerate(extra):
         if i % desc['n'] == desc['shard']:
             if c['data'][0].startswith('big'):
@@ -315,7 +325,9 @@ def run_case(case, ctx, shared=None):
         path = shared['path']
     else:
         _COUNTER[0] += 1
-        path = '/c%d_%d/file.bin' % (os.getpid(), _COUNTER[0])
+        # last path segments as they occur: plain, with ;parameters, with characters that urllib treats specially
+        leaf = ['file.bin', 'spikes;rev=2.bin', 'file.bin', 'data+set~1.bin', 'file.bin'][_COUNTER[0] % 5]
+        path = '/c%d_%d/%s' % (os.getpid(), _COUNTER[0], leaf)
         if shared is not None:
             shared['path'] = path
     url = 'http://127.0.0.1:%d%s' % (srv.server_address[1], path)
@@ -343,6 +355,8 @@ def run_case(case, ctx, shared=None):
         sc['honest_headers'] = True
     if case.get('conditional'):
         sc['conditional'] = True
+    if case.get('md5_delay'):
+        sc['md5_delay'] = case['md5_delay']
     with State.lock:
         State.scripts[path] = sc
         if mirror:
